@@ -1887,6 +1887,42 @@ def expand_value_lookups(trees: Dict[str, ast.Module], max_rows: int = 12) -> in
 
 
 # ---------------------------------------------------------------------------
+# for i, v in enumerate(X[a:], start=a): B      is read as      for i in range(a, len(X)): v = X[i]; B
+# ---------------------------------------------------------------------------
+def index_tail_enumerations(trees: Dict[str, ast.Module]) -> int:
+    """an enumeration of the tail of a sequence that starts counting at the tail's own offset (a a non-negative integer constant,
+    X a plain name that the loop does not re-bind, v a plain name the body does not re-bind): the index is the position in X."""
+    done = 0
+    for t in trees.values():
+        for lp in [x for x in ast.walk(t) if isinstance(x, ast.For)]:
+            it = lp.iter
+            if not (isinstance(it, ast.Call) and isinstance(it.func, ast.Name) and it.func.id == "enumerate" and len(it.args) in (1, 2) and not lp.orelse
+                    and isinstance(lp.target, ast.Tuple) and len(lp.target.elts) == 2 and all(isinstance(e, ast.Name) for e in lp.target.elts)):
+                continue
+            sl = it.args[0]
+            start = it.args[1] if len(it.args) == 2 else next((k.value for k in it.keywords if k.arg == "start"), None)
+            if any(k.arg != "start" for k in it.keywords) or (len(it.args) == 2 and it.keywords):
+                continue
+            if not (isinstance(sl, ast.Subscript) and isinstance(sl.value, ast.Name) and isinstance(sl.slice, ast.Slice) and sl.slice.upper is None and sl.slice.step is None
+                    and isinstance(sl.slice.lower, ast.Constant) and isinstance(sl.slice.lower.value, int) and not isinstance(sl.slice.lower.value, bool) and sl.slice.lower.value >= 0
+                    and isinstance(start, ast.Constant) and start.value == sl.slice.lower.value):
+                continue
+            i, v, X = lp.target.elts[0].id, lp.target.elts[1].id, sl.value.id
+            rebound = {x.id for b in lp.body for x in ast.walk(b) if isinstance(x, ast.Name) and isinstance(x.ctx, (ast.Store, ast.Del))}
+            if {i, v, X} & rebound or len({i, v, X}) != 3:
+                continue
+            lp.target = ast.Name(id=i, ctx=ast.Store())
+            lp.iter = ast.Call(func=ast.Name(id="range", ctx=ast.Load()), args=[ast.Constant(value=start.value), ast.Call(func=ast.Name(id="len", ctx=ast.Load()), args=[ast.Name(id=X, ctx=ast.Load())], keywords=[])], keywords=[])
+            bind = ast.Assign(targets=[ast.Name(id=v, ctx=ast.Store())], value=ast.Subscript(value=ast.Name(id=X, ctx=ast.Load()), slice=ast.Name(id=i, ctx=ast.Load()), ctx=ast.Load()))
+            lp.body.insert(0, bind)
+            for x in (lp, bind):
+                ast.copy_location(x, lp)
+            ast.fix_missing_locations(lp)
+            done += 1
+    return done
+
+
+# ---------------------------------------------------------------------------
 # opts = {'a': x, 'b': y}; opts['c'] = z; f(p, **opts)      is read as      f(p, a=x, b=y, c=z)
 # ---------------------------------------------------------------------------
 def fold_keyword_dicts(trees: Dict[str, ast.Module]) -> int:
